@@ -32,6 +32,7 @@ Inductive fact : Type :=
 | FComp                                             (* the component itself *)
 | FSig   (x : name)                                 (* a declared signal (port, wire, incl. those inside its interfaces / lists) *)
 | FMeth  (x : name)                                 (* a declared method port *)
+| FTouch (x : name)                                 (* a field / list-element signal created as a side effect of referring to a sibling or descendant (x relative to the owner) *)
 | FBlk   (b : string) (kind : string)               (* update block; kind "up" | "ff" | "once" *)
 | FRead  (b : string) (x : name)
 | FWrite (b : string) (x : name)
@@ -49,7 +50,7 @@ Definition mref_refs (m : mref) : list name := match m with MMeth x => [x] | MBl
 Definition refs (f : fact) : list name :=
   match f with
   | FComp | FBlk _ _ | FUU _ _ => []
-  | FSig x | FMeth x | FRead _ x | FWrite _ x | FCall _ x | FRDU x _ _ | FWRU x _ _ => [x]
+  | FSig x | FMeth x | FTouch x | FRead _ x | FWrite _ x | FCall _ x | FRDU x _ _ | FWRU x _ _ => [x]
   | FM m1 m2 _ => mref_refs m1 ++ mref_refs m2
   | FEdge x y => ep_refs x ++ ep_refs y
   | FMEdge x y => [x; y]
@@ -135,6 +136,7 @@ Definition rows_of (g : gfact) : list row :=
   | FComp => [["comp"%string; render o]]
   | FSig x => [["sig"%string; render (o ++ x)]]
   | FMeth x => [["meth"%string; render (o ++ x)]]
+  | FTouch x => [["sig"%string; render (o ++ x)]]
   | FBlk b k => [["blk"%string; render o; b; k]]
   | FRead b x  => [["rd"%string; render o; b; render (o ++ x)]; ["sig"%string; render (o ++ x)]]
   | FWrite b x => [["wr"%string; render o; b; render (o ++ x)]; ["sig"%string; render (o ++ x)]]
@@ -168,7 +170,11 @@ Definition bucket (t : string) (l : list row) : list row := filter (fun r => Str
 Definition rows_subset_fast (a b : list row) : bool :=
   forallb (fun r => existsb (String.eqb (tag_of r)) tags) a &&
   forallb (fun t => let bb := bucket t b in forallb (fun r => row_mem r bb) (bucket t a)) tags.
-Definition rows_eq_fast (a b : list row) : bool := rows_subset_fast a b && rows_subset_fast b a.
+(* names of one design share long prefixes and differ near the end: compare the strings reversed (the tag stays in front) *)
+Definition srev (s : string) : string := string_of_list_ascii (rev (list_ascii_of_string s)).
+Definition rrow (r : row) : row := match r with t :: rest => t :: map srev rest | [] => [] end.
+Definition rows_eq_fast (a b : list row) : bool :=
+  let a' := map rrow a in let b' := map rrow b in rows_subset_fast a' b' && rows_subset_fast b' a'.
 
 (* one correspondence case: initial hierarchy, replacement sequence, rows observed on the implementation.
    both = also evaluate the metadata-level algebra (replace_seq_meta), not only meta of the substituted hierarchy *)
